@@ -1,6 +1,7 @@
 package props
 
 import (
+	"context"
 	"encoding/hex"
 	"fmt"
 	"strings"
@@ -167,6 +168,11 @@ func (c07) Gen(r *world.Rng, tier string, n int) interface{} {
 		blocks = r.Range(10, 30)
 	}
 	o := gen.Opts{Transparent: true, IO: r.Chance(2, 3), Blocks: blocks, MaxSubs: 3, EI: true, StartEI: r.Chance(4, 5)}
+	if n%8 == 6 {
+		// the stack wraps: frames pushed at top level, in subroutines or in PUSH sections straddle
+		// 0x0000/0xFFFF (the words of an acceptance are stored at 0xFFFF and 0x0000)
+		o.StackTop = uint16(r.Pick(1, 1, 2, 3, 5))
+	}
 	var p *gen.Prog
 	for try := 0; ; try++ {
 		p = gen.Structured(r, o)
@@ -204,6 +210,17 @@ func (c07) Gen(r *world.Rng, tier string, n int) interface{} {
 		sc.Swap = r.Range(1, 2)
 	} else if r.Chance(1, 8) {
 		sc.Dumb = true
+	}
+	if o.StackTop != 0 {
+		// the wrapped stack runs over the JP pad of RST 00h at 0x0000: that vector is not used here
+		for i := range kinds {
+			if kinds[i].Data == "c7" {
+				kinds[i].Data = "ff"
+			}
+		}
+		if sc.Swap == 0 {
+			sc.Dumb = r.Bool()
+		}
 	}
 	if n%4 != 3 {
 		sc.Mode = "enumerate"
@@ -249,6 +266,7 @@ type c07Final struct {
 	slot   *z80.Interrupt
 	ticks  uint64
 	landed []string
+	retn   int // RETN notifications seen
 }
 
 // c07Run executes the program with the given events until it is parked on its
@@ -368,6 +386,7 @@ func c07Run(sc *C07Sc, evs []world.Event, budget int, env *Env) (*c07Final, *Vio
 	}
 	f.st, f.halt, f.mem, f.ports, f.steps = m.CPU.States, m.CPU.HALT, &m.Bus.Mem, m.Bus.PortLog, m.Steps
 	f.accSP, f.nAcc, f.slot, f.ticks = m.AccSP, m.Accepted, m.CPU.Interrupt, m.Bus.Tick
+	f.retn = m.Cnt.RETN // (0 in the variants without notification handlers)
 	if !env.Quiet {
 		env.Steps += uint64(m.Steps)
 		env.Ticks += m.Bus.Tick
@@ -478,9 +497,17 @@ func (c07) Exec(sci interface{}, env *Env) *Violation {
 		if got.nAcc > 0 {
 			env.NonTrivial = true
 			env.NTPoints++
+			for _, sp := range got.accSP {
+				if sp == 1 {
+					env.Fire("acceptance-word-straddles-ffff-0000")
+				}
+			}
 			for _, l := range got.landed {
 				env.Fire("accepted/" + l)
 				env.Class("%s", l)
+				if got.retn > 0 && !strings.HasPrefix(l, "NMI") {
+					env.Fire("maskable-handler-left-through-RETN")
+				}
 			}
 		}
 		return nil
@@ -502,6 +529,91 @@ func (c07) Exec(sci interface{}, env *Env) *Violation {
 			}
 		}
 	}
+	return c07RunDriven(sc, env)
+}
+
+// c07RunDriven is the host that never calls Step: Run to the final HALT, then - for every kind of
+// request - raise it while the CPU is parked and call Run again (three times). The request must be
+// served by exactly one handler execution if it is acceptable (NMI, or IFF1 set), must stay pending
+// otherwise, and the machine must be parked on the same HALT with the same registers and memory.
+// Mode-0 requests are left out (known finding D4: their return address cannot be repaired inside Run).
+func c07RunDriven(sc *C07Sc, env *Env) *Violation {
+	if sc.Dumb || sc.Swap != 0 {
+		return nil
+	}
+	segs := sc.Prog.Segs()
+	for _, h := range sc.Handlers {
+		segs = append(segs, h.Seg())
+	}
+	segs = append(segs, sc.Table...)
+	m, err := world.NewMachine(sc.Prog.Regs, segs, sc.IOSeed, nil)
+	if err != nil {
+		return viol("harness", "bad scenario: %v", err)
+	}
+	if sc.NilHandlers {
+		m.CPU.RETNHandler, m.CPU.RETIHandler = nil, nil
+	}
+	var budget uint64
+	m.Hook = func(m *world.Machine, a world.Acc) {
+		if budget != 0 && m.Bus.Tick > budget {
+			budget = 0
+			panic(&overrun{m.Bus.Tick})
+		}
+	}
+	cpu := m.CPU
+	ctx := context.Background()
+	run := func(what string) *Violation {
+		budget = m.Bus.Tick + 400000
+		err, over := safeRun(cpu, ctx)
+		budget = 0
+		if over != nil {
+			return viol("run-driven", "%s: Run was still executing after 400000 accesses", what)
+		}
+		if err != nil || cpu.PC != sc.Prog.HaltAddr || m.Bus.Mem[cpu.PC] != 0x76 {
+			return viol("run-driven", "%s: Run returned %v at PC=%04x; the program parks on its HALT at %04x", what, err, cpu.PC, sc.Prog.HaltAddr)
+		}
+		return nil
+	}
+	if v := run("host that only calls Run, first call"); v != nil {
+		if v.Oracle == "run-driven" && strings.Contains(v.Detail, "still executing") {
+			return nil // a program that needs more than the budget undisturbed: not this pass
+		}
+		return v
+	}
+	for _, kind := range sc.Kinds {
+		if kind.Kind == world.EvINT && sc.Prog.Regs.IM == 0 {
+			continue
+		}
+		before := cpu.States
+		mem := m.Bus.Mem
+		req := kind.Request()
+		acceptable := kind.Kind == world.EvNMI || before.IFF1
+		cpu.Interrupt = req
+		what := fmt.Sprintf("host that only calls Run: %s raised while parked on the final HALT (IFF1=%t), then Run x3", world.FmtRequest(req), before.IFF1)
+		for i := 0; i < 3; i++ {
+			if v := run(what); v != nil {
+				return v
+			}
+		}
+		if d := world.DiffStates(before, cpu.States, true); d != "" {
+			return viol("run-driven", "%s: registers differ from before the request (before!=after):%s", what, d)
+		}
+		cnt := int(m.Bus.Mem[sc.Counter] - mem[sc.Counter])
+		switch {
+		case acceptable && (cnt != 1 || cpu.Interrupt != nil):
+			return viol("run-driven", "%s: the handler ran %d times (want 1), slot now holds %s", what, cnt, world.FmtRequest(cpu.Interrupt))
+		case !acceptable && (cnt != 0 || !world.SameRequest(cpu.Interrupt, req)):
+			return viol("run-driven", "%s: a refused request must stay pending and nothing may run: handler ran %d times, slot now holds %s", what, cnt, world.FmtRequest(cpu.Interrupt))
+		}
+		for a := 0; a < 65536; a++ {
+			if m.Bus.Mem[a] != mem[a] && uint16(a) != sc.Counter && before.SP-uint16(a)-1 >= 0x1000 {
+				return viol("run-driven", "%s: memory[%04x]=%02x, was %02x", what, a, m.Bus.Mem[a], mem[a])
+			}
+		}
+		cpu.Interrupt = nil
+		env.Fire("run-driven/raised-while-parked/acceptable=" + fmt.Sprint(acceptable))
+	}
+	env.Ticks += m.Bus.Tick
 	return nil
 }
 
